@@ -2,6 +2,8 @@
 # like mutest.sh, but on a scratch worktree through VERIF_REPO (does not touch /repo)
 patch=$(readlink -f "$1"); prop=$2; runs=${3:-}
 WT=/tmp/probe_repo
+# one user of the scratch worktree at a time (apply .. check .. undo is one critical section)
+exec 9>/tmp/probe_repo.lock; flock 9
 cd /verif
 [ -d $WT ] || git -C /repo worktree add -q --detach $WT HEAD
 git -C $WT checkout -q -- . && git -C $WT apply "$patch" || { echo "patch does not apply"; exit 3; }
